@@ -4,6 +4,7 @@ go 1.18
 
 require (
 	github.com/chewxy/math32 v1.0.8
+	gonum.org/v1/gonum v0.8.2
 	gorgonia.org/tensor v0.0.0
 )
 
@@ -17,7 +18,6 @@ require (
 	github.com/xtgo/set v1.0.0 // indirect
 	go4.org/unsafe/assume-no-moving-gc v0.0.0-20230525183740-e7c30c78aeb2 // indirect
 	golang.org/x/xerrors v0.0.0-20200804184101-5ec99f83aff1 // indirect
-	gonum.org/v1/gonum v0.8.2 // indirect
 	google.golang.org/protobuf v1.25.0 // indirect
 	gorgonia.org/vecf32 v0.9.0 // indirect
 	gorgonia.org/vecf64 v0.9.0 // indirect
